@@ -36,7 +36,7 @@ for m in MUTANTS:
         p = subprocess.run(cmd, capture_output=True, text=True, env=env, cwd=ROOT)
         expect = m.get("expect", 1)
         ok = p.returncode == expect
-        viol = [l for l in p.stdout.splitlines() if l.startswith(("VIOLATION", "UNDECIDED", "CHECKER-ERROR"))]
+        viol = [l for l in p.stdout.splitlines() if l.startswith(("VIOLATION", "UNDECIDED", "CHECKER-ERROR", "KNOWN"))]
         print("%-50s exit=%d expected=%d %s" % (m["name"], p.returncode, expect, "OK" if ok else "MISMATCH"))
         for l in viol[:3]:
             print("      " + l[:230])
